@@ -1,6 +1,6 @@
 """C16 -- anything read can be saved again, and a second generation equals the first."""
 import random
-from harness import core, md as M, arrays as A, pl as P, legacy as L, tree as T
+from harness import core, md as M, arrays as A, pl as P, legacy as L, tree as T, classes as K
 from harness.md import COQ_IMPORTS, CASETY, CHECKFN
 from harness.props import c02, c03, c04, c17
 
@@ -34,6 +34,12 @@ def cases(seed, tier):
                 steps.append({'op': 'regen', 'file': 0, 'emdpath': '/'.join([t['name']] + p), 'tree': tr, 'gens': 2})
         steps.append({'op': 'regen', 'file': 0, 'tree': True, 'gens': 3})
         out.append({'stream': 't', 'tops': [t], 'steps': steps})
+    # trees holding downstream subclasses and composition (Custom) nodes, read with the classes in place, saved again, read again
+    for _ in range(40 if q else 2000):
+        sc = K.gen_e2e(rng)
+        sc['placements'] = [pl for pl in sc['placements'] if pl['how'] == 'top'][:1]
+        sc['want_regen'] = True; sc['stream'] = 'k'
+        out.append(sc)
     return out
 
 
@@ -45,6 +51,7 @@ def run_one(args):
         if s == 'a': return A.run_scenario(c, scratch)
         if s == 'p': return P.run_case(c, scratch)
         if s == 'l': return L.run_case(c, scratch)
+        if s == 'k': return K.run_e2e(c, scratch)
         return T.run_scenario(c, scratch)
     except BaseException:
         import traceback
@@ -78,6 +85,23 @@ def tree_content(a):
 def oracle(c, r):
     s = c['stream']
     desc = str({k: v for k, v in c.items() if k not in ('steps', 'tops', 'seed')})[:200]
+    if s == 'k':
+        from harness.props import c06
+        cname_of = {x['id']: x['cname'] for x in c['classes']}
+        for spec, pl in zip(c['placements'], r.get('placements', [])):
+            if 'nodes' not in pl:
+                continue
+            # the property's domain has distinct class names: skip module graphs that bind one name to two classes (see C06)
+            specs = c06.index_specs(spec['tops'])
+            if any(K.reference_candidates(spec['tops'], specs, cname_of[cid]) != {cid} for cid in c['used']) or \
+                    any(K.reference_candidates(spec['tops'], specs, b) - {('b', b)} for b in ('Root', 'Metadata', 'Node', 'Array', 'PointList', 'PointListArray', 'Custom')):
+                continue
+            if 'gen2_exc' in pl:
+                return {'key': 'custom-tree-read-result-not-savable', 'what': f"a tree holding subclass / composition nodes, as returned by read, was refused by save or unreadable afterwards: {pl['gen2_exc']}"}
+            if pl.get('gen2') != pl['nodes']:
+                d = sorted(set(pl['nodes']) ^ set(pl.get('gen2', {}))) or [k for k in pl['nodes'] if pl['nodes'][k] != pl['gen2'].get(k)]
+                return {'key': 'custom-tree-second-generation-differs', 'what': f'second generation of a tree holding subclass / composition nodes differs at {d[:4]}'}
+        return None
     if s == 'm':
         if 'build_exc' in r or not r.get('saved') or not r.get('read'):
             return None                       # C03's business
